@@ -23,6 +23,8 @@ def part_params(rng, alg, n, k=None, objs=OBJS5, cut=False):
         p["it"] = rng.choice([0, 1, 3, 10, 10, 20])
     if alg in ("ckk", "snp", "rnp"):
         p["k"] = min(k, 5) if rng.random() < 0.97 else 6   # k! permutations per combination step
+        if n > (6 if alg == "ckk" else 7):
+            p["k"] = min(p["k"], 4)     # with 5+ bins and many (zero-valued) items the k! combinations take minutes per call
     if alg == "cg":
         p.update(rng.choice(SWITCHES))
         p["obj"] = rng.choice(objs)
